@@ -182,6 +182,28 @@ def ctor_field_value(F, v):
     return v
 
 
+def self_field_owner(F, adt, v):
+    """For a value tree `self.a.b.f` (fields of `adt`, possibly grouped into sub-structs): the ADT that declares `f`."""
+    chain = []
+    x = v
+    while x[0] in ("field", "deref", "ref"):
+        if x[0] == "field":
+            chain.append(x[2])
+        x = x[1]
+    chain.reverse()
+    cur = adt
+    for name in chain[:-1]:
+        a = F.adts.get(cur)
+        nxt = None
+        for f in ((a or {}).get("variants") or [{}])[0].get("fields", []):
+            if f["name"] == name:
+                nxt = f.get("adt")
+        if nxt is None:
+            return adt
+        cur = nxt
+    return cur
+
+
 def field_writers(F, adt, field):
     """All MIR writes of `adt.field`: [(body, bb, stmt_or_term, value_tree, how)].
 
@@ -426,6 +448,67 @@ def path_count_range(b, weight, start=0, targets=None):
 def reach_feasible(b, start, avoid=(), known=None):
     """See Body.reach_feasible."""
     return b.reach_feasible(start, avoid, known)
+
+
+def iter_paths(b, start, targets, within=None, oracle=None, max_steps=60000):
+    """Acyclic paths from `start`, path-sensitive for booleans and enum values built on the path (Body.feasible_step).
+    -> (hits, exits): hits = [(target block, [(switch bb, truth value)..], (blocks of the path..))] for every path that reaches a block of `targets`;
+    exits = [(from bb, to bb, [(switch bb, truth)..])] for every path that leaves `within`. The truth values are those of the boolean
+    switches passed on the way (the condition of switch bb evaluated to that value)."""
+    targets = set(targets)
+    hits, exits = [], []
+    stack = [(start, {}, (), frozenset([start]), (start,))]
+    steps = 0
+    while stack:
+        steps += 1
+        if steps > max_steps:
+            return None, None
+        x, env, conds, seen, path = stack.pop()
+        if x in targets and x != start:
+            hits.append((x, list(conds), path))
+            continue
+        env2, nxt, _dec = b.feasible_step(x, env, oracle)
+        t = b.blocks[x]["term"]
+        for y in nxt:
+            c2 = conds
+            if t["k"] == "switch" and t.get("discr_ty") == "bool":
+                val = None
+                for arm in t["arms"]:
+                    if arm["target"] == y:
+                        val = (arm["val"] != 0)
+                if val is None and t["otherwise"] == y:
+                    vals = {arm["val"] for arm in t["arms"]}
+                    val = True if vals == {0} else False if vals == {1} else None
+                if val is not None:
+                    c2 = conds + ((x, val),)
+            if within is not None and y not in within:
+                exits.append((x, y, list(c2)))
+                continue
+            if y in seen:
+                continue
+            stack.append((y, env2, c2, seen | {y}, path + (y,)))
+    return hits, exits
+
+
+def depth_relation(b, sw, val):
+    """The comparison of a tree depth that the boolean switch `sw` establishes on its `val` edge: (op, name of the other operand) with the
+    depth on the left (`tree.depth < maxdepth` -> ('Lt', 'maxdepth')), None when the condition is not such a comparison."""
+    from . import rel as Rl
+    v_ = b.value(b.blocks[sw]["term"]["discr"])
+    if v_[0] == "un" and v_[1] == "Not":
+        v_, val = v_[2], not val
+    if v_[0] != "bin" or v_[1] not in Rl.NEG:
+        return None
+    op = v_[1] if val else Rl.NEG[v_[1]]
+    l_, r_ = v_[2], v_[3]
+
+    def nm(x):
+        return x[2] if x[0] in ("field", "local", "arg") and len(x) > 2 else None
+    if nm(r_) == "depth":
+        l_, r_, op = r_, l_, Rl.FLIP[op]
+    if nm(l_) != "depth":
+        return None
+    return (op, nm(r_))
 
 
 def borrow_rule(R, func, new_rid, text, only_rules=None):
